@@ -702,6 +702,8 @@ class Rewriter:
     # R25: collections::String -- the text is the byte view of its Vec<u8>; std's str functions on the text become shims ----------
     def strops_rules(self, b):
         b = self.sub('R25:char-at', r'\bself\[(\w+)\.\.\]\.chars\(\)\.next\(\)', r'self.char_at(hs, \1)', b)
+        b = self.sub('R25:char-at-unchecked', r'(?:unsafe\s*)?\{?\s*self\.get_unchecked\((\w[\w.]*)\.\.(\w+)\)\s*\}?\.chars\(\)\.next\(\)\.(?:unwrap|unwrap_unchecked)\(\)',
+                     r'self.char_at_unchecked(hs, \1, \2)', b)
         b = self.sub('R25:last-char', r'\bself\.chars\(\)\.rev\(\)\.next\(\)', 'self.last_char(hs)', b)
         b = self.sub('R25:slice-chars', r'\bself\[(\w+)\.\.(\w+)\]\.chars\(\)', r'self.slice_chars(hs, \1, \2)', b)
         b = self.sub('R25:is_char_boundary', r'\bself\.is_char_boundary\(', 'self.is_char_boundary(hs, ', b)
